@@ -1,27 +1,36 @@
 // registry: regenerates from the Go source what the token-pair registry model (property C12) takes as given
 // -> Gen/RegistryGen.v
 //
-// Sources (relative to -repo):
+// Everything is SEMANTIC (what the code computes / which stores it can write), not a transcript of names and
+// statements, so that extracting or inlining helpers, store accessors, loops written out etc. changes nothing:
 //
-//	x/aggregate/types/token_pair.go : (TokenPair).GetID
-//	    the operands of the string concatenation that is hashed, in order: 0 = <recv>.ERC20Address,
-//	    1 = <recv>.Denoms[0], 2 = string literal (its bytes), 9 = anything else (source text); and the hash function.
-//	x/aggregate/types/proposal.go   : CreateDenom, CreateDenomDescription
-//	    body `return fmt.Sprintf(<literal>, args...)`: the format and the arguments: 3 = package constant (its string
-//	    value, resolved in x/aggregate/types), 4 = the function's parameter, 9 = anything else.
-//	x/aggregate/types/aggregate.pb.go : the constants of type Owner with their values.
-//	every non-test .go file of the repository:
-//	    registry_writers     : for every function that calls one of the registry write methods (SetTokenPair,
-//	                           SetDenomsMap, SetDenomMap, SetERC20Map, DeleteTokenPair, deleteTokenPair,
-//	                           deleteERC20Map, deleteDenomMap): "<file>:<Recv>.<Func>" and the calls in source order;
-//	    registry_raw_access  : for every function that mentions one of the constants KeyPrefixTokenPair /
-//	                           KeyPrefixTokenPairByERC20 / KeyPrefixTokenPairByDenom: the constant and, sorted, the
-//	                           methods called on the prefix store / the iterator constructor used with it.
+//	getid_parts          the byte string (TokenPair).GetID hashes, as a normalised operand list
+//	                     (0 = <recv>.ERC20Address, 1 = <recv>.Denoms[0], 2 = literal bytes, 9 = not understood).  A small
+//	                     symbolic evaluator follows delegation to helpers of the package (parameters bound to the
+//	                     caller's operands) and understands string concatenation, []byte / string conversions,
+//	                     append(b, s...) / append(b, 'c', ...), make([]byte, 0, n), fmt.Sprintf with %s verbs,
+//	                     strings.Join of a literal slice, bytes.Buffer / strings.Builder Write* calls and straight-line
+//	                     assignments.  getid_hash = the hash function applied to it.
+//	create_denom_parts,  CreateDenom / CreateDenomDescription evaluated the same way (2 = literal, package constants are
+//	create_descr_parts   resolved to their value; 4 = the function's parameter).
+//	owner_values         the constants of type Owner (aggregate.pb.go).
+//	registry writers     interprocedural, over the packages under x/aggregate: a RAW WRITE is Set / Delete on a prefix store
+//	                     of KeyPrefixTokenPair (1), ...ByERC20 (2), ...ByDenom (3) - obtained by prefix.NewStore or through any
+//	                     chain of accessor functions returning such a store, held in a variable or used directly.  The
+//	                     footprint of a function = the raw writes (code 10*prefix + 0 Set / 1 Delete) it can reach through
+//	                     any chain of calls (callees resolved by name inside x/aggregate: an over-approximation).
+//	  registry_entry_footprints   every EXPORTED function under x/aggregate with a non-empty footprint, named
+//	                              "<package dir>:<Recv>.<Name>", with its sorted footprint;
+//	  registry_unmodelled_writers functions that reach a raw write WITHOUT passing through one of the model's operations
+//	                              (registry_ops_assumed) and are neither an operation nor one of the exported primitives
+//	                              (registry_primitives_assumed): exported ones, and unexported ones nobody modelled calls;
+//	  registry_external_primitive_callers  functions OUTSIDE x/aggregate that call a primitive by name;
+//	  registry_undetermined       constructs the analysis does not understand (a prefix constant used outside
+//	                              prefix.NewStore / KVStorePrefixIterator, a prefix store passed to an unknown function,
+//	                              a file that does not parse ...): the writers obligation then fails, nothing else.
 //
-// Proofs/RegistrySource.v states what the model needs of these terms (decidable conditions evaluated on the
-// regenerated values): the hashed string is text|denom0, the two format functions are the model's create_denom /
-// create_descr, the owner values are the model's, every function that writes the registry is one the model has, and
-// the six primitives write the prefix the model says.  A missing function / unparsable file is a failed tie (exit 1).
+// Proofs/RegistrySource.v has the generic lemmas, Props/C12Source*.v one obligation file per item, so an item the
+// translator cannot determine fails ITS obligation only.  The translator never exits non-zero.
 package main
 
 import (
@@ -39,25 +48,15 @@ import (
 	"strings"
 )
 
-func die(f string, a ...interface{}) {
-	fmt.Fprintf(os.Stderr, "registry: "+f+"\n", a...)
-	os.Exit(1)
-}
-
 var fset = token.NewFileSet()
+var undetermined []string
+
+func undet(f string, a ...interface{}) { undetermined = append(undetermined, fmt.Sprintf(f, a...)) }
 
 func src(n ast.Node) string {
 	var b bytes.Buffer
 	printer.Fprint(&b, fset, n)
 	return strings.Join(strings.Fields(b.String()), " ")
-}
-
-func parse(path string) *ast.File {
-	f, err := parser.ParseFile(fset, path, nil, 0)
-	if err != nil {
-		die("%v", err)
-	}
-	return f
 }
 
 func coqBytes(s string) string {
@@ -96,117 +95,303 @@ func recvVar(fd *ast.FuncDecl) string {
 	return fd.Recv.List[0].Names[0].Name
 }
 
-func findFunc(f *ast.File, recv, name string) *ast.FuncDecl {
-	for _, d := range f.Decls {
-		if fd, ok := d.(*ast.FuncDecl); ok && fd.Name.Name == name && recvName(fd) == recv {
-			return fd
-		}
-	}
-	return nil
-}
+// ---------------------------------------------------------------------------------------------------
+// symbolic evaluation of byte-string expressions
 
 type part struct {
 	kind int
 	text string
 }
 
-func flattenAdd(e ast.Expr, out *[]ast.Expr) {
-	if p, ok := e.(*ast.ParenExpr); ok {
-		flattenAdd(p.X, out)
-		return
-	}
-	if b, ok := e.(*ast.BinaryExpr); ok && b.Op == token.ADD {
-		flattenAdd(b.X, out)
-		flattenAdd(b.Y, out)
-		return
-	}
-	*out = append(*out, e)
+type value struct {
+	parts []part
+	hash  string // non-empty: the value is hash(parts)
 }
 
-// GetID: `id := A + "|" + B; return H([]byte(id))` or `return H([]byte(A + "|" + B))`
-func getID(fd *ast.FuncDecl) (parts []part, hash string) {
-	rv := recvVar(fd)
-	binds := map[string]ast.Expr{}
-	var ret *ast.ReturnStmt
-	for _, st := range fd.Body.List {
+func lit(s string) value { return value{parts: []part{{2, s}}} }
+func other(n ast.Node) value {
+	return value{parts: []part{{9, src(n)}}}
+}
+
+func concat(a, b value) value {
+	if a.hash != "" || b.hash != "" {
+		return value{parts: []part{{9, "concatenation with a hash value"}}}
+	}
+	return value{parts: append(append([]part{}, a.parts...), b.parts...)}
+}
+
+func normalise(ps []part) []part {
+	out := []part{}
+	for _, p := range ps {
+		if p.kind == 2 && p.text == "" {
+			continue
+		}
+		if p.kind == 2 && len(out) > 0 && out[len(out)-1].kind == 2 {
+			out[len(out)-1].text += p.text
+			continue
+		}
+		out = append(out, p)
+	}
+	return out
+}
+
+type evaluator struct {
+	funcs  map[string]*ast.FuncDecl // package-level functions and methods of the package, by name (methods: "Recv.Name")
+	consts map[string]string
+	depth  int
+}
+
+type env struct {
+	vars map[string]value
+	recv string // receiver variable of the ROOT function (GetID): its fields give kinds 0 / 1
+}
+
+func (ev *evaluator) expr(e ast.Expr, en *env) value {
+	switch x := e.(type) {
+	case *ast.ParenExpr:
+		return ev.expr(x.X, en)
+	case *ast.BasicLit:
+		switch x.Kind {
+		case token.STRING:
+			if s, err := strconv.Unquote(x.Value); err == nil {
+				return lit(s)
+			}
+		case token.CHAR:
+			if s, err := strconv.Unquote(x.Value); err == nil && len(s) == 1 {
+				return lit(s)
+			}
+		}
+		return other(e)
+	case *ast.Ident:
+		if v, ok := en.vars[x.Name]; ok {
+			return v
+		}
+		if c, ok := ev.consts[x.Name]; ok {
+			return lit(c)
+		}
+		return other(e)
+	case *ast.SelectorExpr:
+		if id, ok := x.X.(*ast.Ident); ok && en.recv != "" && id.Name == en.recv && x.Sel.Name == "ERC20Address" {
+			return value{parts: []part{{0, ""}}}
+		}
+		return other(e)
+	case *ast.IndexExpr:
+		if sel, ok := x.X.(*ast.SelectorExpr); ok {
+			if id, ok := sel.X.(*ast.Ident); ok && en.recv != "" && id.Name == en.recv && sel.Sel.Name == "Denoms" {
+				if l, ok := x.Index.(*ast.BasicLit); ok && l.Value == "0" {
+					return value{parts: []part{{1, ""}}}
+				}
+			}
+		}
+		return other(e)
+	case *ast.BinaryExpr:
+		if x.Op == token.ADD {
+			return concat(ev.expr(x.X, en), ev.expr(x.Y, en))
+		}
+		return other(e)
+	case *ast.CallExpr:
+		return ev.call(x, en)
+	}
+	return other(e)
+}
+
+func isByteSlice(t ast.Expr) bool {
+	at, ok := t.(*ast.ArrayType)
+	return ok && at.Len == nil && src(at.Elt) == "byte"
+}
+
+func (ev *evaluator) call(c *ast.CallExpr, en *env) value {
+	// conversions
+	if isByteSlice(c.Fun) && len(c.Args) == 1 {
+		return ev.expr(c.Args[0], en)
+	}
+	if id, ok := c.Fun.(*ast.Ident); ok {
+		switch id.Name {
+		case "string":
+			if len(c.Args) == 1 {
+				return ev.expr(c.Args[0], en)
+			}
+		case "make":
+			// make([]byte, 0) / make([]byte, 0, n): the empty string
+			if len(c.Args) >= 2 && isByteSlice(c.Args[0]) {
+				if l, ok := c.Args[1].(*ast.BasicLit); ok && l.Value == "0" {
+					return value{}
+				}
+			}
+			return other(c)
+		case "append":
+			if len(c.Args) == 0 {
+				return other(c)
+			}
+			v := ev.expr(c.Args[0], en)
+			for _, a := range c.Args[1:] {
+				v = concat(v, ev.expr(a, en))
+			}
+			return v
+		}
+		// a function of the package
+		if fd, ok := ev.funcs[id.Name]; ok && fd.Recv == nil {
+			return ev.apply(fd, c.Args, en)
+		}
+		return other(c)
+	}
+	if sel, ok := c.Fun.(*ast.SelectorExpr); ok {
+		name := src(sel)
+		switch name {
+		case "fmt.Sprintf":
+			if len(c.Args) >= 1 {
+				if l, ok := c.Args[0].(*ast.BasicLit); ok && l.Kind == token.STRING {
+					if f, err := strconv.Unquote(l.Value); err == nil {
+						return ev.sprintf(f, c.Args[1:], en, c)
+					}
+				}
+			}
+			return other(c)
+		case "strings.Join":
+			if len(c.Args) == 2 {
+				if cl, ok := c.Args[0].(*ast.CompositeLit); ok {
+					sep := ev.expr(c.Args[1], en)
+					v := value{}
+					for i, el := range cl.Elts {
+						if i > 0 {
+							v = concat(v, sep)
+						}
+						v = concat(v, ev.expr(el, en))
+					}
+					return v
+				}
+			}
+			return other(c)
+		}
+		// buffer.String() / buffer.Bytes()
+		if id, ok := sel.X.(*ast.Ident); ok {
+			if v, ok := en.vars[id.Name]; ok && (sel.Sel.Name == "String" || sel.Sel.Name == "Bytes") && len(c.Args) == 0 {
+				return v
+			}
+			// pkg.Func(x) with one argument and not a function of this package: a hash application
+			if _, isVar := en.vars[id.Name]; !isVar && len(c.Args) == 1 && id.Name != en.recv {
+				arg := ev.expr(c.Args[0], en)
+				if arg.hash == "" {
+					return value{parts: arg.parts, hash: name}
+				}
+			}
+		}
+	}
+	return other(c)
+}
+
+func (ev *evaluator) sprintf(f string, args []ast.Expr, en *env, n ast.Node) value {
+	v := value{}
+	ai := 0
+	for i := 0; i < len(f); i++ {
+		if f[i] != '%' {
+			v = concat(v, lit(string(f[i])))
+			continue
+		}
+		if i+1 < len(f) && f[i+1] == '%' {
+			v = concat(v, lit("%"))
+			i++
+			continue
+		}
+		if i+1 < len(f) && f[i+1] == 's' && ai < len(args) {
+			v = concat(v, ev.expr(args[ai], en))
+			ai++
+			i++
+			continue
+		}
+		return other(n)
+	}
+	if ai != len(args) {
+		return other(n)
+	}
+	return v
+}
+
+// apply evaluates a straight-line function body with its parameters bound to the arguments
+func (ev *evaluator) apply(fd *ast.FuncDecl, args []ast.Expr, caller *env) value {
+	if ev.depth > 6 || fd.Body == nil {
+		return value{parts: []part{{9, "call depth / no body: " + fd.Name.Name}}}
+	}
+	ev.depth++
+	defer func() { ev.depth-- }()
+	en := &env{vars: map[string]value{}}
+	i := 0
+	for _, fl := range fd.Type.Params.List {
+		for _, n := range fl.Names {
+			if i < len(args) {
+				en.vars[n.Name] = ev.expr(args[i], caller)
+			}
+			i++
+		}
+	}
+	if i != len(args) {
+		return value{parts: []part{{9, "arity: " + fd.Name.Name}}}
+	}
+	return ev.body(fd.Body, en)
+}
+
+func (ev *evaluator) body(b *ast.BlockStmt, en *env) value {
+	for _, st := range b.List {
 		switch s := st.(type) {
 		case *ast.AssignStmt:
 			if len(s.Lhs) == 1 && len(s.Rhs) == 1 {
 				if id, ok := s.Lhs[0].(*ast.Ident); ok {
-					binds[id.Name] = s.Rhs[0]
-					continue
-				}
-			}
-			return []part{{9, src(st)}}, "?"
-		case *ast.ReturnStmt:
-			ret = s
-		default:
-			return []part{{9, src(st)}}, "?"
-		}
-	}
-	if ret == nil || len(ret.Results) != 1 {
-		return []part{{9, "no single return"}}, "?"
-	}
-	call, ok := ret.Results[0].(*ast.CallExpr)
-	if !ok || len(call.Args) != 1 {
-		return []part{{9, src(ret)}}, "?"
-	}
-	hash = src(call.Fun)
-	arg := call.Args[0]
-	// []byte(x)
-	if conv, ok := arg.(*ast.CallExpr); ok && len(conv.Args) == 1 {
-		if at, ok := conv.Fun.(*ast.ArrayType); ok && at.Len == nil && src(at.Elt) == "byte" {
-			arg = conv.Args[0]
-		}
-	}
-	if id, ok := arg.(*ast.Ident); ok {
-		if e, ok := binds[id.Name]; ok {
-			arg = e
-		}
-	}
-	var ops []ast.Expr
-	flattenAdd(arg, &ops)
-	for _, o := range ops {
-		switch x := o.(type) {
-		case *ast.BasicLit:
-			if x.Kind == token.STRING {
-				s, err := strconv.Unquote(x.Value)
-				if err != nil {
-					die("GetID: %v", err)
-				}
-				parts = append(parts, part{2, s})
-				continue
-			}
-		case *ast.SelectorExpr:
-			if id, ok := x.X.(*ast.Ident); ok && id.Name == rv && x.Sel.Name == "ERC20Address" {
-				parts = append(parts, part{0, ""})
-				continue
-			}
-		case *ast.IndexExpr:
-			if sel, ok := x.X.(*ast.SelectorExpr); ok {
-				if id, ok := sel.X.(*ast.Ident); ok && id.Name == rv && sel.Sel.Name == "Denoms" {
-					if lit, ok := x.Index.(*ast.BasicLit); ok && lit.Value == "0" {
-						parts = append(parts, part{1, ""})
+					switch s.Tok {
+					case token.DEFINE, token.ASSIGN:
+						en.vars[id.Name] = ev.expr(s.Rhs[0], en)
+						continue
+					case token.ADD_ASSIGN:
+						en.vars[id.Name] = concat(en.vars[id.Name], ev.expr(s.Rhs[0], en))
 						continue
 					}
 				}
 			}
+			return other(st)
+		case *ast.DeclStmt:
+			gd, ok := s.Decl.(*ast.GenDecl)
+			if !ok || gd.Tok != token.VAR {
+				return other(st)
+			}
+			for _, sp := range gd.Specs {
+				vs := sp.(*ast.ValueSpec)
+				for i, n := range vs.Names {
+					if i < len(vs.Values) {
+						en.vars[n.Name] = ev.expr(vs.Values[i], en)
+					} else {
+						en.vars[n.Name] = value{} // zero value: empty string / nil slice / empty buffer
+					}
+				}
+			}
+		case *ast.ExprStmt:
+			// buf.WriteString(x) / buf.WriteByte(c) / buf.Write(x)
+			if c, ok := s.X.(*ast.CallExpr); ok {
+				if sel, ok := c.Fun.(*ast.SelectorExpr); ok {
+					if id, ok := sel.X.(*ast.Ident); ok && len(c.Args) == 1 {
+						if cur, ok := en.vars[id.Name]; ok && (sel.Sel.Name == "WriteString" || sel.Sel.Name == "WriteByte" || sel.Sel.Name == "Write" || sel.Sel.Name == "WriteRune") {
+							en.vars[id.Name] = concat(cur, ev.expr(c.Args[0], en))
+							continue
+						}
+					}
+				}
+			}
+			return other(st)
+		case *ast.ReturnStmt:
+			if len(s.Results) != 1 {
+				return other(st)
+			}
+			return ev.expr(s.Results[0], en)
+		default:
+			return other(st)
 		}
-		parts = append(parts, part{9, src(o)})
 	}
-	return parts, hash
+	return value{parts: []part{{9, "no return"}}}
 }
 
 // string constants of a package directory (const X = "lit" and const Y = X)
-func stringConsts(dir string) map[string]string {
+func stringConsts(files []*ast.File) map[string]string {
 	out := map[string]string{}
 	alias := map[string]string{}
-	files, _ := filepath.Glob(filepath.Join(dir, "*.go"))
-	for _, p := range files {
-		if strings.HasSuffix(p, "_test.go") {
-			continue
-		}
-		f := parse(p)
+	for _, f := range files {
 		for _, d := range f.Decls {
 			gd, ok := d.(*ast.GenDecl)
 			if !ok || gd.Tok != token.CONST {
@@ -242,54 +427,6 @@ func stringConsts(dir string) map[string]string {
 	return out
 }
 
-// `return fmt.Sprintf(<lit>, args...)`
-func sprintfFunc(fd *ast.FuncDecl, consts map[string]string) (format string, args []part) {
-	if fd.Body == nil || len(fd.Body.List) != 1 {
-		return "?", []part{{9, "body is not a single return"}}
-	}
-	ret, ok := fd.Body.List[0].(*ast.ReturnStmt)
-	if !ok || len(ret.Results) != 1 {
-		return "?", []part{{9, src(fd.Body.List[0])}}
-	}
-	call, ok := ret.Results[0].(*ast.CallExpr)
-	if !ok || src(call.Fun) != "fmt.Sprintf" || len(call.Args) < 1 {
-		return "?", []part{{9, src(ret)}}
-	}
-	lit, ok := call.Args[0].(*ast.BasicLit)
-	if !ok || lit.Kind != token.STRING {
-		return "?", []part{{9, src(call.Args[0])}}
-	}
-	format, err := strconv.Unquote(lit.Value)
-	if err != nil {
-		die("%s: %v", fd.Name.Name, err)
-	}
-	params := map[string]bool{}
-	for _, fl := range fd.Type.Params.List {
-		for _, n := range fl.Names {
-			params[n.Name] = true
-		}
-	}
-	for _, a := range call.Args[1:] {
-		if id, ok := a.(*ast.Ident); ok {
-			if params[id.Name] {
-				args = append(args, part{4, ""})
-				continue
-			}
-			if v, ok := consts[id.Name]; ok {
-				args = append(args, part{3, v})
-				continue
-			}
-		}
-		args = append(args, part{9, src(a)})
-	}
-	return format, args
-}
-
-var writeMethods = map[string]bool{
-	"SetTokenPair": true, "SetDenomsMap": true, "SetDenomMap": true, "SetERC20Map": true,
-	"DeleteTokenPair": true, "deleteTokenPair": true, "deleteERC20Map": true, "deleteDenomMap": true,
-}
-
 func partsTerm(ps []part) string {
 	items := []string{}
 	for _, p := range ps {
@@ -298,81 +435,321 @@ func partsTerm(ps []part) string {
 	return "[" + strings.Join(items, "; ") + "]"
 }
 
+// ---------------------------------------------------------------------------------------------------
+// who can write the three prefixes
+
+var prefixCode = map[string]int{"KeyPrefixTokenPair": 1, "KeyPrefixTokenPairByERC20": 2, "KeyPrefixTokenPairByDenom": 3}
+
+// the model's operations and the exported write primitives they are made of (Model/Registry.v)
+var opsAssumed = []string{
+	"x/aggregate:InitGenesis",
+	"x/aggregate/keeper:Keeper.AddCoin",
+	"x/aggregate/keeper:Keeper.ConvertCoin",
+	"x/aggregate/keeper:Keeper.ConvertERC20",
+	"x/aggregate/keeper:Keeper.RegisterCoin",
+	"x/aggregate/keeper:Keeper.RegisterERC20",
+	"x/aggregate/keeper:Keeper.ToggleRelay",
+	"x/aggregate/keeper:Keeper.UpdateTokenPairERC20",
+}
+var primitivesAssumed = []string{
+	"x/aggregate/keeper:Keeper.DeleteTokenPair",
+	"x/aggregate/keeper:Keeper.SetDenomMap",
+	"x/aggregate/keeper:Keeper.SetDenomsMap",
+	"x/aggregate/keeper:Keeper.SetERC20Map",
+	"x/aggregate/keeper:Keeper.SetTokenPair",
+}
+
+// functions a prefix store may be handed to without being written
+var readOnlyCallees = map[string]bool{
+	"query.Paginate": true, "sdk.KVStorePrefixIterator": true, "sdk.KVStoreReversePrefixIterator": true,
+	"storetypes.KVStorePrefixIterator": true, "types.KVStorePrefixIterator": true,
+}
+
+type fn struct {
+	key      string
+	pkg      string
+	recv     string
+	name     string
+	exported bool
+	decl     *ast.FuncDecl
+	calls    []callRef
+	raw      map[int]bool
+	accessor int
+}
+
+type callRef struct {
+	sel  bool
+	name string
+}
+
+func isExported(s string) bool { return s != "" && s[0] >= 'A' && s[0] <= 'Z' }
+
+func mentionsPrefix(e ast.Node) int {
+	code := 0
+	ast.Inspect(e, func(n ast.Node) bool {
+		switch x := n.(type) {
+		case *ast.SelectorExpr:
+			if c, ok := prefixCode[x.Sel.Name]; ok {
+				code = c
+			}
+		case *ast.Ident:
+			if c, ok := prefixCode[x.Name]; ok {
+				code = c
+			}
+		}
+		return true
+	})
+	return code
+}
+
+type analysis struct {
+	fns          []*fn
+	byName       map[string][]*fn // simple name -> functions under x/aggregate
+	accessorName map[string]int   // simple name of accessor functions -> prefix
+}
+
+// storeExpr: does the expression denote a prefix store of one of the three prefixes (0 = no)
+func (a *analysis) storeExpr(e ast.Expr, vars map[string]int) int {
+	switch x := e.(type) {
+	case *ast.ParenExpr:
+		return a.storeExpr(x.X, vars)
+	case *ast.Ident:
+		return vars[x.Name]
+	case *ast.CallExpr:
+		if src(x.Fun) == "prefix.NewStore" && len(x.Args) == 2 {
+			return mentionsPrefix(x.Args[1])
+		}
+		switch f := x.Fun.(type) {
+		case *ast.Ident:
+			return a.accessorName[f.Name]
+		case *ast.SelectorExpr:
+			return a.accessorName[f.Sel.Name]
+		}
+	}
+	return 0
+}
+
+func (a *analysis) storeVars(fd *ast.FuncDecl) map[string]int {
+	vars := map[string]int{}
+	for changed := true; changed; {
+		changed = false
+		ast.Inspect(fd.Body, func(n ast.Node) bool {
+			switch s := n.(type) {
+			case *ast.AssignStmt:
+				for i, rhs := range s.Rhs {
+					if i < len(s.Lhs) && len(s.Lhs) == len(s.Rhs) {
+						if id, ok := s.Lhs[i].(*ast.Ident); ok {
+							if p := a.storeExpr(rhs, vars); p > 0 && vars[id.Name] != p {
+								vars[id.Name] = p
+								changed = true
+							}
+						}
+					}
+				}
+			case *ast.ValueSpec:
+				for i, v := range s.Values {
+					if i < len(s.Names) {
+						if p := a.storeExpr(v, vars); p > 0 && vars[s.Names[i].Name] != p {
+							vars[s.Names[i].Name] = p
+							changed = true
+						}
+					}
+				}
+			}
+			return true
+		})
+	}
+	return vars
+}
+
+// isAccessor: every return statement returns a prefix store of the same prefix
+func (a *analysis) isAccessor(f *fn) int {
+	fd := f.decl
+	if fd.Type.Results == nil || len(fd.Type.Results.List) != 1 {
+		return 0
+	}
+	vars := a.storeVars(fd)
+	p, n := 0, 0
+	ok := true
+	ast.Inspect(fd.Body, func(nd ast.Node) bool {
+		if _, isLit := nd.(*ast.FuncLit); isLit {
+			return false
+		}
+		if r, isRet := nd.(*ast.ReturnStmt); isRet {
+			n++
+			if len(r.Results) != 1 {
+				ok = false
+				return true
+			}
+			q := a.storeExpr(r.Results[0], vars)
+			if q == 0 || (p != 0 && q != p) {
+				ok = false
+			}
+			p = q
+		}
+		return true
+	})
+	if !ok || n == 0 {
+		return 0
+	}
+	return p
+}
+
+func (a *analysis) analyse(f *fn) {
+	fd := f.decl
+	vars := a.storeVars(fd)
+	recognised := map[ast.Node]bool{} // prefix-constant mentions inside prefix.NewStore / iterator constructors
+	ast.Inspect(fd.Body, func(n ast.Node) bool {
+		c, ok := n.(*ast.CallExpr)
+		if !ok {
+			return true
+		}
+		fname := src(c.Fun)
+		if fname == "prefix.NewStore" || readOnlyCallees[fname] {
+			for _, arg := range c.Args {
+				ast.Inspect(arg, func(m ast.Node) bool {
+					switch x := m.(type) {
+					case *ast.SelectorExpr:
+						if _, ok := prefixCode[x.Sel.Name]; ok {
+							recognised[x] = true
+							recognised[x.Sel] = true
+						}
+					case *ast.Ident:
+						if _, ok := prefixCode[x.Name]; ok {
+							recognised[x] = true
+						}
+					}
+					return true
+				})
+			}
+		}
+		// calls and raw writes
+		switch fun := c.Fun.(type) {
+		case *ast.Ident:
+			f.calls = append(f.calls, callRef{false, fun.Name})
+		case *ast.SelectorExpr:
+			if p := a.storeExpr(fun.X, vars); p > 0 {
+				switch fun.Sel.Name {
+				case "Set":
+					f.raw[10*p] = true
+				case "Delete":
+					f.raw[10*p+1] = true
+				case "Get", "Has", "Iterator", "ReverseIterator":
+				default:
+					undet("%s: method %s called on a prefix store of the registry", f.key, fun.Sel.Name)
+				}
+			} else {
+				f.calls = append(f.calls, callRef{true, fun.Sel.Name})
+			}
+		}
+		// a prefix store handed to another function
+		if !readOnlyCallees[fname] {
+			for _, arg := range c.Args {
+				if p := a.storeExpr(arg, vars); p > 0 {
+					undet("%s: a prefix store of the registry is passed to %s", f.key, fname)
+				}
+			}
+		}
+		return true
+	})
+	// prefix constants used in any other way
+	ast.Inspect(fd.Body, func(n ast.Node) bool {
+		switch x := n.(type) {
+		case *ast.SelectorExpr:
+			if _, ok := prefixCode[x.Sel.Name]; ok && !recognised[x] {
+				undet("%s: %s used outside prefix.NewStore / a prefix iterator", f.key, x.Sel.Name)
+			}
+		case *ast.Ident:
+			if _, ok := prefixCode[x.Name]; ok && !recognised[x] {
+				undet("%s: %s used outside prefix.NewStore / a prefix iterator", f.key, x.Name)
+			}
+		}
+		return true
+	})
+}
+
+func (a *analysis) callees(f *fn) []*fn {
+	var out []*fn
+	for _, c := range f.calls {
+		for _, g := range a.byName[c.name] {
+			if !c.sel && (g.recv != "" || g.pkg != f.pkg) {
+				continue // a plain identifier call resolves to a package-level function of the same package
+			}
+			out = append(out, g)
+		}
+	}
+	return out
+}
+
+func setOf(l []string) map[string]bool {
+	m := map[string]bool{}
+	for _, s := range l {
+		m[s] = true
+	}
+	return m
+}
+
+func codes(m map[int]bool) []int {
+	var out []int
+	for c := range m {
+		out = append(out, c)
+	}
+	sort.Ints(out)
+	return out
+}
+
 func main() {
 	repo := flag.String("repo", "/repo", "repository root")
 	out := flag.String("out", "", "output directory (coq/theories/Gen)")
 	flag.Parse()
 	if *out == "" {
-		die("-out required")
+		fmt.Fprintln(os.Stderr, "registry: -out required")
+		return
 	}
-	typesDir := filepath.Join(*repo, "x", "aggregate", "types")
-
-	// GetID
-	tp := parse(filepath.Join(typesDir, "token_pair.go"))
-	gid := findFunc(tp, "TokenPair", "GetID")
-	if gid == nil || gid.Body == nil {
-		die("x/aggregate/types/token_pair.go: method (TokenPair).GetID not found")
-	}
-	parts, hash := getID(gid)
-
-	// CreateDenom / CreateDenomDescription
-	consts := stringConsts(typesDir)
-	prop := parse(filepath.Join(typesDir, "proposal.go"))
-	cd := findFunc(prop, "", "CreateDenom")
-	cdd := findFunc(prop, "", "CreateDenomDescription")
-	if cd == nil || cdd == nil {
-		die("x/aggregate/types/proposal.go: CreateDenom / CreateDenomDescription not found")
-	}
-	cdFmt, cdArgs := sprintfFunc(cd, consts)
-	cddFmt, cddArgs := sprintfFunc(cdd, consts)
-
-	// Owner constants
-	pb := parse(filepath.Join(typesDir, "aggregate.pb.go"))
-	type ov struct {
-		name string
-		val  string
-	}
-	var owners []ov
-	for _, d := range pb.Decls {
-		gd, ok := d.(*ast.GenDecl)
-		if !ok || gd.Tok != token.CONST {
-			continue
-		}
-		for _, sp := range gd.Specs {
-			vs := sp.(*ast.ValueSpec)
-			if vs.Type == nil || src(vs.Type) != "Owner" {
-				continue
+	var b bytes.Buffer
+	func() {
+		defer func() {
+			if r := recover(); r != nil {
+				undet("translator panic: %v", r)
 			}
-			for i, n := range vs.Names {
-				if i >= len(vs.Values) {
-					die("aggregate.pb.go: Owner constant %s without explicit value", n.Name)
-				}
-				lit, ok := vs.Values[i].(*ast.BasicLit)
-				if !ok || lit.Kind != token.INT {
-					die("aggregate.pb.go: Owner constant %s: value %s is not an integer literal", n.Name, src(vs.Values[i]))
-				}
-				owners = append(owners, ov{n.Name, lit.Value})
-			}
-		}
+		}()
+		generate(*repo, &b)
+	}()
+	if b.Len() == 0 || !strings.Contains(b.String(), "Definition registry_undetermined") {
+		// nothing could be generated: every item undetermined
+		b.Reset()
+		b.WriteString("(* GENERATED by tools/gotocoq/registry -- generation failed, every item is undetermined *)\nFrom Teleport Require Import Base.Bytes.\nLocal Open Scope N_scope.\n")
+		b.WriteString("Definition getid_parts : list (nat * bytes) := [(9%nat, [])].\nDefinition getid_hash : bytes := [].\n")
+		b.WriteString("Definition create_denom_parts : list (nat * bytes) := [(9%nat, [])].\nDefinition create_descr_parts : list (nat * bytes) := [(9%nat, [])].\n")
+		b.WriteString("Definition owner_values : list (bytes * N) := [].\n")
+		b.WriteString("Definition registry_ops_assumed : list bytes := [].\nDefinition registry_primitives_assumed : list bytes := [].\n")
+		b.WriteString("Definition registry_entry_footprints : list (bytes * list nat) := [].\nDefinition registry_unmodelled_writers : list bytes := [].\n")
+		b.WriteString("Definition registry_external_primitive_callers : list bytes := [].\n")
+		fmt.Fprintf(&b, "Definition registry_undetermined : list bytes := [%s].\n", coqBytes(strings.Join(undetermined, "; ")))
 	}
-	if len(owners) == 0 {
-		die("aggregate.pb.go: no constant of type Owner")
+	path := filepath.Join(*out, "RegistryGen.v")
+	if old, err := os.ReadFile(path); err == nil && bytes.Equal(old, b.Bytes()) {
+		return
 	}
+	if err := os.WriteFile(path, b.Bytes(), 0o644); err != nil {
+		fmt.Fprintf(os.Stderr, "registry: %v\n", err)
+	}
+}
 
-	// writers / raw access over the whole repository
-	type fn struct {
-		name  string
-		calls []string
+func generate(repo string, b *bytes.Buffer) {
+	// ---- parse everything
+	type pf struct {
+		rel  string
+		file *ast.File
 	}
-	var writers []fn
-	var raws []fn
-	err := filepath.Walk(*repo, func(path string, info os.FileInfo, err error) error {
+	var files []pf
+	filepath.Walk(repo, func(path string, info os.FileInfo, err error) error {
 		if err != nil {
-			return err
+			return nil
 		}
 		if info.IsDir() {
-			b := info.Name()
-			if path != *repo && (strings.HasPrefix(b, ".") || b == "vendor" || b == "third_party" || b == "node_modules" || b == "build" || b == "testdata") {
+			bn := info.Name()
+			if path != repo && (strings.HasPrefix(bn, ".") || bn == "vendor" || bn == "third_party" || bn == "node_modules" || bn == "build" || bn == "testdata") {
 				return filepath.SkipDir
 			}
 			return nil
@@ -380,125 +757,272 @@ func main() {
 		if !strings.HasSuffix(path, ".go") || strings.HasSuffix(path, "_test.go") {
 			return nil
 		}
-		rel, _ := filepath.Rel(*repo, path)
-		if strings.HasPrefix(rel, filepath.Join("x", "aggregate", "client")) {
-			// CLI / REST clients build messages, they hold no keeper
-		}
+		rel, _ := filepath.Rel(repo, path)
 		f, perr := parser.ParseFile(fset, path, nil, 0)
 		if perr != nil {
-			die("%v", perr)
+			if strings.HasPrefix(rel, filepath.Join("x", "aggregate")) {
+				undet("%s does not parse: %v", rel, perr)
+			}
+			return nil
 		}
+		files = append(files, pf{rel, f})
+		return nil
+	})
+	inU := func(rel string) bool { return strings.HasPrefix(rel, "x/aggregate/") }
+
+	// ---- the types package: GetID, CreateDenom, CreateDenomDescription, Owner
+	var typesFiles []*ast.File
+	for _, f := range files {
+		if filepath.Dir(f.rel) == "x/aggregate/types" {
+			typesFiles = append(typesFiles, f.file)
+		}
+	}
+	ev := &evaluator{funcs: map[string]*ast.FuncDecl{}, consts: stringConsts(typesFiles)}
+	var getID *ast.FuncDecl
+	for _, f := range typesFiles {
 		for _, d := range f.Decls {
+			if fd, ok := d.(*ast.FuncDecl); ok && fd.Body != nil {
+				if fd.Recv == nil {
+					ev.funcs[fd.Name.Name] = fd
+				} else if recvName(fd) == "TokenPair" && fd.Name.Name == "GetID" {
+					getID = fd
+				}
+			}
+		}
+	}
+	getidParts, getidHash := []part{{9, "method (TokenPair).GetID not found"}}, ""
+	getidSrc := ""
+	if getID != nil {
+		getidSrc = src(getID.Body)
+		v := ev.body(getID.Body, &env{vars: map[string]value{}, recv: recvVar(getID)})
+		if v.hash == "" {
+			getidParts = []part{{9, "GetID does not return a hash of a byte string: " + partsTerm(v.parts)}}
+		} else {
+			getidParts, getidHash = normalise(v.parts), v.hash
+		}
+	}
+	formatParts := func(name string) []part {
+		fd, ok := ev.funcs[name]
+		if !ok {
+			return []part{{9, name + " not found"}}
+		}
+		en := &env{vars: map[string]value{}}
+		n := 0
+		for _, fl := range fd.Type.Params.List {
+			for _, p := range fl.Names {
+				en.vars[p.Name] = value{parts: []part{{4, ""}}}
+				n++
+			}
+		}
+		if n != 1 {
+			return []part{{9, name + " does not take one parameter"}}
+		}
+		v := ev.body(fd.Body, en)
+		if v.hash != "" {
+			return []part{{9, name + " returns a hash"}}
+		}
+		return normalise(v.parts)
+	}
+	cdParts, cddParts := formatParts("CreateDenom"), formatParts("CreateDenomDescription")
+
+	type ov struct{ name, val string }
+	var owners []ov
+	for _, f := range typesFiles {
+		for _, d := range f.Decls {
+			gd, ok := d.(*ast.GenDecl)
+			if !ok || gd.Tok != token.CONST {
+				continue
+			}
+			for _, sp := range gd.Specs {
+				vs := sp.(*ast.ValueSpec)
+				if vs.Type == nil || src(vs.Type) != "Owner" {
+					continue
+				}
+				for i, n := range vs.Names {
+					if i < len(vs.Values) {
+						if l, ok := vs.Values[i].(*ast.BasicLit); ok && l.Kind == token.INT {
+							owners = append(owners, ov{n.Name, l.Value})
+						}
+					}
+				}
+			}
+		}
+	}
+
+	// ---- the call graph under x/aggregate
+	a := &analysis{byName: map[string][]*fn{}, accessorName: map[string]int{}}
+	primNames := map[string]bool{}
+	for _, p := range primitivesAssumed {
+		primNames[p[strings.LastIndex(p, ".")+1:]] = true
+	}
+	var external []string
+	for _, f := range files {
+		for _, d := range f.file.Decls {
 			fd, ok := d.(*ast.FuncDecl)
 			if !ok || fd.Body == nil {
 				continue
 			}
-			name := rel + ":" + fd.Name.Name
-			if r := recvName(fd); r != "" {
-				name = rel + ":" + r + "." + fd.Name.Name
+			pkg := filepath.Dir(f.rel)
+			r := recvName(fd)
+			name := fd.Name.Name
+			key := pkg + ":" + name
+			if r != "" {
+				key = pkg + ":" + r + "." + name
 			}
-			var calls []string
-			prefixes := map[string]bool{}
-			methods := map[string]bool{}
-			stores := map[string]bool{}
+			if inU(f.rel) {
+				g := &fn{key: key, pkg: pkg, recv: r, name: name, decl: fd, raw: map[int]bool{},
+					exported: isExported(name) && (r == "" || isExported(r))}
+				a.fns = append(a.fns, g)
+				a.byName[name] = append(a.byName[name], g)
+				continue
+			}
+			// outside x/aggregate: nobody may call a write primitive or touch the prefixes
+			seen := map[string]bool{}
 			ast.Inspect(fd.Body, func(n ast.Node) bool {
 				switch x := n.(type) {
-				case *ast.AssignStmt:
-					// store := prefix.NewStore(..., types.KeyPrefixTokenPairX) / iterator := sdk.KVStorePrefixIterator(store, types.KeyPrefixTokenPairX)
-					for i, rhs := range x.Rhs {
-						if c, ok := rhs.(*ast.CallExpr); ok && strings.Contains(src(c), "KeyPrefixTokenPair") && i < len(x.Lhs) {
-							if id, ok := x.Lhs[i].(*ast.Ident); ok {
-								stores[id.Name] = true
-							}
-							methods["<-"+src(c.Fun)] = true
-						}
+				case *ast.CallExpr:
+					if sel, ok := x.Fun.(*ast.SelectorExpr); ok && primNames[sel.Sel.Name] && !seen[sel.Sel.Name] {
+						seen[sel.Sel.Name] = true
+						external = append(external, key+" calls "+sel.Sel.Name)
 					}
 				case *ast.SelectorExpr:
-					if strings.HasPrefix(x.Sel.Name, "KeyPrefixTokenPair") {
-						prefixes[x.Sel.Name] = true
-					}
-				case *ast.Ident:
-					if strings.HasPrefix(x.Name, "KeyPrefixTokenPair") {
-						prefixes[x.Name] = true
-					}
-				case *ast.CallExpr:
-					if sel, ok := x.Fun.(*ast.SelectorExpr); ok {
-						if writeMethods[sel.Sel.Name] {
-							calls = append(calls, sel.Sel.Name)
-						}
-						if id, ok := sel.X.(*ast.Ident); ok && stores[id.Name] {
-							methods[sel.Sel.Name] = true
-						}
+					if _, ok := prefixCode[x.Sel.Name]; ok {
+						undet("%s: %s used outside x/aggregate", key, x.Sel.Name)
 					}
 				}
 				return true
 			})
-			if len(calls) > 0 {
-				writers = append(writers, fn{name, calls})
-			}
-			if len(prefixes) > 0 && !(rel == filepath.Join("x", "aggregate", "types", "keys.go")) {
-				var items []string
-				for p := range prefixes {
-					items = append(items, p)
+		}
+	}
+	// accessors (fixed point: an accessor may delegate to an accessor)
+	for changed := true; changed; {
+		changed = false
+		for _, f := range a.fns {
+			if f.accessor == 0 {
+				if p := a.isAccessor(f); p > 0 {
+					f.accessor = p
+					if q, dup := a.accessorName[f.name]; dup && q != p {
+						undet("two store accessors named %s for different prefixes", f.name)
+					}
+					a.accessorName[f.name] = p
+					changed = true
 				}
-				sort.Strings(items)
-				var ms []string
-				for m := range methods {
-					ms = append(ms, m)
-				}
-				sort.Strings(ms)
-				raws = append(raws, fn{name, append(items, ms...)})
 			}
 		}
-		return nil
-	})
-	if err != nil {
-		die("%v", err)
 	}
-	sort.Slice(writers, func(i, j int) bool { return writers[i].name < writers[j].name })
-	sort.Slice(raws, func(i, j int) bool { return raws[i].name < raws[j].name })
-	if len(writers) == 0 {
-		die("no function writing the registry found (method names changed?)")
+	for _, f := range a.fns {
+		a.analyse(f)
 	}
+	// footprints: full, and without passing through an operation
+	ops, prims := setOf(opsAssumed), setOf(primitivesAssumed)
+	full := map[*fn]map[int]bool{}
+	noOp := map[*fn]map[int]bool{}
+	for _, f := range a.fns {
+		full[f], noOp[f] = map[int]bool{}, map[int]bool{}
+		for c := range f.raw {
+			full[f][c], noOp[f][c] = true, true
+		}
+	}
+	for changed := true; changed; {
+		changed = false
+		for _, f := range a.fns {
+			for _, g := range a.callees(f) {
+				for c := range full[g] {
+					if !full[f][c] {
+						full[f][c] = true
+						changed = true
+					}
+				}
+				if !ops[g.key] {
+					for c := range noOp[g] {
+						if !noOp[f][c] {
+							noOp[f][c] = true
+							changed = true
+						}
+					}
+				}
+			}
+		}
+	}
+	// reachable from the modelled functions
+	reach := map[*fn]bool{}
+	var stack []*fn
+	for _, f := range a.fns {
+		if ops[f.key] || prims[f.key] {
+			reach[f] = true
+			stack = append(stack, f)
+		}
+	}
+	for len(stack) > 0 {
+		f := stack[len(stack)-1]
+		stack = stack[:len(stack)-1]
+		for _, g := range a.callees(f) {
+			if !reach[g] {
+				reach[g] = true
+				stack = append(stack, g)
+			}
+		}
+	}
+	type ent struct {
+		key string
+		fp  []int
+	}
+	var entries []ent
+	var unmodelled []string
+	for _, f := range a.fns {
+		if f.exported && len(full[f]) > 0 {
+			entries = append(entries, ent{f.key, codes(full[f])})
+		}
+		if len(noOp[f]) > 0 && !ops[f.key] && !prims[f.key] && (f.exported || !reach[f]) {
+			unmodelled = append(unmodelled, f.key)
+		}
+	}
+	sort.Slice(entries, func(i, j int) bool { return entries[i].key < entries[j].key })
+	sort.Strings(unmodelled)
+	sort.Strings(external)
+	sort.Strings(undetermined)
 
-	var b bytes.Buffer
-	b.WriteString("(* GENERATED by tools/gotocoq/registry from x/aggregate/types/{token_pair,proposal,aggregate.pb}.go and every\n   non-test .go file of the repository -- do not edit. *)\nFrom Teleport Require Import Base.Bytes.\nLocal Open Scope N_scope.\n\n")
-	fmt.Fprintf(&b, "(* (TokenPair).GetID hashes, in order (0 = ERC20Address, 1 = Denoms[0], 2 = literal, 9 = other): %s *)\n", comment(src(gid.Body)))
-	fmt.Fprintf(&b, "Definition getid_parts : list (nat * bytes) := %s.\n", partsTerm(parts))
-	fmt.Fprintf(&b, "Definition getid_hash : bytes := %s. (* %s *)\n\n", coqBytes(hash), comment(hash))
-	fmt.Fprintf(&b, "(* CreateDenom: Sprintf(%q, ...) with (3 = constant value, 4 = the parameter, 9 = other) *)\n", cdFmt)
-	fmt.Fprintf(&b, "Definition create_denom_fmt : bytes := %s.\nDefinition create_denom_args : list (nat * bytes) := %s.\n\n", coqBytes(cdFmt), partsTerm(cdArgs))
-	fmt.Fprintf(&b, "(* CreateDenomDescription: Sprintf(%q, ...) *)\n", cddFmt)
-	fmt.Fprintf(&b, "Definition create_descr_fmt : bytes := %s.\nDefinition create_descr_args : list (nat * bytes) := %s.\n\n", coqBytes(cddFmt), partsTerm(cddArgs))
-	b.WriteString("(* constants of type Owner (aggregate.pb.go) *)\nDefinition owner_values : list (bytes * N) :=\n  [")
+	// ---- output
+	b.WriteString("(* GENERATED by tools/gotocoq/registry from the packages under x/aggregate (and, for callers of the write\n   primitives, every non-test .go file of the repository) -- do not edit. *)\nFrom Teleport Require Import Base.Bytes.\nLocal Open Scope N_scope.\n\n")
+	fmt.Fprintf(b, "(* what (TokenPair).GetID hashes (0 = ERC20Address, 1 = Denoms[0], 2 = literal, 9 = not understood); source: %s *)\n", comment(getidSrc))
+	fmt.Fprintf(b, "Definition getid_parts : list (nat * bytes) := %s.\n", partsTerm(getidParts))
+	fmt.Fprintf(b, "Definition getid_hash : bytes := %s. (* %s *)\n\n", coqBytes(getidHash), comment(getidHash))
+	fmt.Fprintf(b, "(* CreateDenom / CreateDenomDescription as operand lists (2 = literal, 4 = the parameter, 9 = not understood) *)\n")
+	fmt.Fprintf(b, "Definition create_denom_parts : list (nat * bytes) := %s.\n", partsTerm(cdParts))
+	fmt.Fprintf(b, "Definition create_descr_parts : list (nat * bytes) := %s.\n\n", partsTerm(cddParts))
+	b.WriteString("(* constants of type Owner *)\nDefinition owner_values : list (bytes * N) :=\n  [")
 	for i, o := range owners {
 		if i > 0 {
 			b.WriteString(";\n   ")
 		}
-		fmt.Fprintf(&b, "(%s, %s) (* %s *)", coqBytes(o.name), o.val, o.name)
+		fmt.Fprintf(b, "(%s, %s) (* %s *)", coqBytes(o.name), o.val, o.name)
 	}
 	b.WriteString("].\n\n")
-	emit := func(name, doc string, fs []fn) {
-		fmt.Fprintf(&b, "(* %s *)\nDefinition %s : list (bytes * list bytes) :=\n  [", doc, name)
-		for i, w := range fs {
+	list := func(name, doc string, l []string) {
+		fmt.Fprintf(b, "(* %s *)\nDefinition %s : list bytes :=\n  [", doc, name)
+		for i, s := range l {
 			if i > 0 {
 				b.WriteString(";\n   ")
 			}
-			var cs []string
-			for _, c := range w.calls {
-				cs = append(cs, coqBytes(c))
-			}
-			fmt.Fprintf(&b, "(%s, [%s]) (* %s: %s *)", coqBytes(w.name), strings.Join(cs, "; "), comment(w.name), comment(strings.Join(w.calls, " ")))
+			fmt.Fprintf(b, "%s (* %s *)", coqBytes(s), comment(s))
 		}
 		b.WriteString("].\n\n")
 	}
-	emit("registry_writers", "functions that call a registry write method, with the calls in source order", writers)
-	emit("registry_raw_access", "functions that mention a KeyPrefixTokenPair* constant: the constants, then how the store is obtained (<-) and the methods called on it", raws)
-	path := filepath.Join(*out, "RegistryGen.v")
-	if old, err := os.ReadFile(path); err == nil && bytes.Equal(old, b.Bytes()) {
-		return
+	list("registry_ops_assumed", "the model's operations: reaching a raw write through one of them is fine", opsAssumed)
+	list("registry_primitives_assumed", "the exported write primitives the operations are made of", primitivesAssumed)
+	fmt.Fprintf(b, "(* exported functions under x/aggregate that can reach a raw write, with the writes they can reach\n   (10 / 11 = Set / Delete on prefix 0x01, 20 / 21 on 0x02, 30 / 31 on 0x03) *)\nDefinition registry_entry_footprints : list (bytes * list nat) :=\n  [")
+	for i, e := range entries {
+		if i > 0 {
+			b.WriteString(";\n   ")
+		}
+		var cs []string
+		for _, c := range e.fp {
+			cs = append(cs, fmt.Sprintf("%d%%nat", c))
+		}
+		fmt.Fprintf(b, "(%s, [%s]) (* %s *)", coqBytes(e.key), strings.Join(cs, "; "), comment(e.key))
 	}
-	if err := os.WriteFile(path, b.Bytes(), 0o644); err != nil {
-		die("%v", err)
-	}
+	b.WriteString("].\n\n")
+	list("registry_unmodelled_writers", "functions reaching a raw write without passing through an operation that are neither operation nor primitive", unmodelled)
+	list("registry_external_primitive_callers", "functions outside x/aggregate calling a write primitive", external)
+	list("registry_undetermined", "constructs the analysis does not understand", undetermined)
 }
